@@ -169,20 +169,32 @@ theorem solveForward_left_once {n o p : Nat} (ainv : Mat α n n) (L : Mat α o n
     (Matrix.of (solveForward ainv L R) : Matrix _ _ α) = Matrix.of L * Matrix.of ainv * Matrix.of R :=
   solveForward_model ainv L R
 
-/-! ### Known defect D09: `CholLinearOperator(L).inverse()` -/
+/-! ### `CholLinearOperator.inverse()` -/
 
-/-- What the inverse operator should be: `(L Lᵀ)⁻¹ = (L⁻¹)ᵀ L⁻¹` — the stored factor `L⁻¹` must be read as `RᵀR`
-(upper convention) although it is a LOWER-triangular tensor; /repo flips the flag but not the tensor. -/
-theorem cholInverse_partial {ι : Type} [Fintype ι] [DecidableEq ι] (L : Matrix ι ι α) :
-    (L * Lᵀ)⁻¹ = (L⁻¹)ᵀ * L⁻¹ := chol_inverse_orientation L
+/-- **cholInverse** (full, current code): the root `B` that `CholLinearOperator.inverse()` hands to `RootLinearOperator`
+— `(L⁻¹)ᵀ` for a lower root, `R⁻¹` for an upper root, with `L⁻¹`/`R⁻¹` computed by the substitution the stored flag
+selects — satisfies `B Bᵀ = A⁻¹`, for both orientations and every size. -/
+theorem cholInverse_root {n : Nat} (upper : Bool) (T : Mat α n n)
+    (hT : if upper then IsUpper T else IsLower T) (hd : ∀ i, T i i ≠ 0) :
+    (Matrix.of (cholInverseRoot upper T) : Matrix (Fin n) (Fin n) α) * (Matrix.of (cholInverseRoot upper T))ᵀ
+      = (if upper then (Matrix.of T)ᵀ * Matrix.of T else Matrix.of T * (Matrix.of T)ᵀ)⁻¹ := by
+  cases upper
+  · simpa using cholInverseRoot_lower T (by simpa using hT) hd
+  · simpa using cholInverseRoot_upper T (by simpa using hT) hd
 
-/-- As coded, `CholLinearOperator(L).inverse().solve(B)` runs `cholesky_solve(B, L⁻¹, upper=True)` on a
-lower-triangular `L⁻¹`: only its diagonal is read, so the result is `diag(L⁻¹)⁻² B`, for every size. -/
-theorem cholInverse_asCoded_reads_diagonal {n m : Nat} (linv : Mat α n n) (B : Mat α n m) (h : IsLower linv)
+/-- `(L Lᵀ)⁻¹ = (L⁻¹)ᵀ L⁻¹` and `(RᵀR)⁻¹ = R⁻¹ (R⁻¹)ᵀ`: the inverse is a root times its transpose with the opposite
+triangle first, so it is not of Cholesky form. -/
+theorem cholInverse_orientation {ι : Type} [Fintype ι] [DecidableEq ι] (L : Matrix ι ι α) :
+    (L * Lᵀ)⁻¹ = (L⁻¹)ᵀ * L⁻¹ ∧ (Lᵀ * L)⁻¹ = L⁻¹ * (L⁻¹)ᵀ :=
+  ⟨chol_inverse_orientation L, chol_inverse_orientation_upper L⟩
+
+/-! #### About the PREVIOUS code (defect D09, fixed in /repo by 05006ba) — kept so that a re-introduction is recognisable -/
+
+/-- The previous `CholLinearOperator(L).inverse().solve(B)` ran `cholesky_solve(B, L⁻¹, upper=True)` on a lower-triangular
+`L⁻¹`: only its diagonal was read, so the result was `diag(L⁻¹)⁻² B`, for every size. -/
+theorem previous_cholInverse_reads_diagonal {n m : Nat} (linv : Mat α n n) (B : Mat α n m) (h : IsLower linv)
     (hd : ∀ i, linv i i ≠ 0) :
-    cholInverseSolveAsCoded false linv B = fun i j => B i j / linv i i / linv i i := by
-  have hU : IsUpper (Mat.transpose linv) := fun i j hij => h j i hij
-  -- inner: triSolveT true linv B = triSolve false linvᵀ B with an UPPER tensor under a lower flag
+    cholInverseSolvePrevious false linv B = fun i j => B i j / linv i i / linv i i := by
   have inner : triSolveT true linv B = fun i j => B i j / linv i i := by
     funext i j
     have hb := fwdSub_spec n (Mat.transpose linv) (fun i => B i j) (fun i => hd i) i
@@ -198,15 +210,15 @@ theorem cholInverse_asCoded_reads_diagonal {n m : Nat} (linv : Mat α n n) (B : 
       · simp
     rw [this] at hb
     rw [← hb, mul_div_cancel_left₀ _ (hd i)]
-  simp only [cholInverseSolveAsCoded, cholSolve, Bool.not_false, if_true]
+  simp only [cholInverseSolvePrevious, cholSolve, Bool.not_false, if_true]
   rw [inner, triSolve_wrong_flag linv _ h hd]
 
-/-- **D09 counterexample** (exact rationals): `L = [[1,0],[1,1]]`, `B = e₂`: the coded path returns `(0,1)`, the
+/-- Counterexample for the previous code (exact rationals): `L = [[1,0],[1,1]]`, `B = e₂`: it returned `(0,1)`, the
 specification `A B = L Lᵀ B` is `(1,2)`. -/
-theorem cholInverse_counterexample :
+theorem previous_cholInverse_counterexample :
     ∃ (root linv : Mat Rat 2 2) (B : Mat Rat 2 1),
       Mat.mul root linv = Mat.one ∧
-      cholInverseSolveAsCoded false linv B 0 0 ≠ cholInverseSolveSpec false root B 0 0 := by
+      cholInverseSolvePrevious false linv B 0 0 ≠ cholInverseSolveSpec false root B 0 0 := by
   refine ⟨fun i j => if j ≤ i then 1 else 0, fun i j => if i = j then 1 else if j < i then -1 else 0,
     fun i _ => if i = 1 then 1 else 0, ?_, ?_⟩
   · funext i j; fin_cases i <;> fin_cases j <;> decide +kernel
